@@ -16,7 +16,7 @@ RULE = ("a case is (composite type built through the pydsdl constructors, value,
         "serialize, value returned by deserialize on those bytes (type-directed positional form, floats as binary64 patterns, every NaN "
         "one token), or the coarse exception class; implementation-alone predicates: decoded == value for exact values, re-encoding the "
         "decoded value reproduces the bytes, 8*len within min/max and residues mod 64 of the (inner) bit length set, relaxed form gives the "
-        "same bytes, int<->integral-float / 0-1-for-bool input coercions (implementation alone, not modelled) give the same bytes; non-trivial = the type has >= 2 value-carrying leaves or a nested composite/array and serialization succeeded; "
+        "same bytes, histories on one type object (decode, mutate the returned object in place, serialize values that omit fields / decode again; every step compared with the pure model; no aliasing inside or between returned objects), int<->integral-float / 0-1-for-bool input coercions (implementation alone, not modelled) give the same bytes; non-trivial = the type has >= 2 value-carrying leaves or a nested composite/array and serialization succeeded; "
         "distinct = by hash of the canonical case")
 THEOREMS_NOTE = ("C06_wire_spec + C06_wire_unique fix the bytes (the Specification's bit-list encoding spec_enc, packed LSB first); C06_roundtrip / "
                  "C06_roundtrip_exact fix the decoded value (canon t v; v itself for exact values); C06_length_in_bls, C06_cast_*, C06_defaults_*; "
@@ -199,13 +199,25 @@ def emit_sobs(o):
     return "(C06.SBytes %s %s)" % (G.zlist(o["bytes"]), emit_dobs(o["back"]))
 
 
+def emit_step(step, so):
+    if step[0] == "ser":
+        return "(C06.SSer %s %s %s)" % (emit_val(step[1]), G.b(step[2]), emit_sobs(so))
+    return "(C06.SDes %s %s %s)" % (G.zlist(so["data"]), G.b(step[2]), emit_dobs(so["res"]))
+
+
 def emit(case, obs):
     if "build_error" in obs:
         return "(C06.Case (TVoid 0) VOmit false (C06.SErr COther))"
+    if "hist" in case:
+        return "(C06.Hist %s %s)" % (emit_ty(case["ty"]), G.lst([emit_step(st, so) for st, so in zip(case["hist"], obs["steps"])]))
     return "(C06.Case %s %s %s %s)" % (emit_ty(case["ty"]), emit_val(case["val"]), G.b(case["hdr"]), emit_sobs(obs))
 
 
 def model_eval(case, obs):
+    if "hist" in case:
+        return ("Eval vm_compute in (map (fun c => match c with C06.Hist t ss => map (fun s => match s with "
+                "C06.SSer v h _ => (Some (serialize t v h), None) | C06.SDes d h _ => (None, Some (deserialize t d h)) end) ss "
+                "| _ => [] end) cases).\n")
     return ("Eval vm_compute in (map (fun c => match c with C06.Case t v h _ => (serialize t v h, "
             "match serialize t v h with Ok bs => Some (deserialize t bs h) | _ => None end) end) cases).\n")
 
@@ -594,6 +606,173 @@ def gen_random_case(rng, tier):
     return mk_case(t, v, hdr, relax_seed=rng.getrandbits(30))
 
 
+# ----------------------------------------------------------------------------------------------------------------
+# histories on ONE type object: decode -> the application mutates the returned object in place -> serialize values that omit
+# fields / decode again.  The model is pure, so the expected result of every step is that of the untouched model.
+
+
+def omit_value(rng, t):
+    """A value that omits every structure field it can."""
+    return gen_value(rng, t, p_omit=1.0)
+
+
+def has_nested_delim(t):
+    inner = list(walk_types(t))[1:]
+    if t[0] == "delim":
+        inner = inner[1:]
+    return any(x[0] == "delim" for x in inner)
+
+
+def gen_history(rng, tier):
+    ctx = Ctx(rng, max_cap=4)
+    for _ in range(40):
+        t = gen_composite(ctx, rng.choice([1, 2, 2, 3]))
+        if has_nested_delim(t) and not (t[0] == "struct" and not t[2]):
+            break
+    top_delim = t[0] == "delim"
+    maxb = min(max_len(t) // 8 + 4, 40)
+
+    def hdr():
+        return top_delim and rng.random() < 0.3
+
+    def des_empty():
+        r = rng.random()
+        if r < 0.6:
+            return ["des", ["zeros", rng.randrange(0, maxb + 1)], hdr()]
+        if r < 0.8:
+            return ["des", ["prefix", gen_value(rng, t, 0.2), rng.randrange(0, maxb + 1)], hdr()]
+        return ["des", ["raw", [rng.choice([0, 0, 0, 1, 2, 255]) for _ in range(rng.randrange(0, maxb + 1))]], hdr()]
+
+    steps = [["ser", omit_value(rng, t), hdr()], des_empty(), ["ser", omit_value(rng, t), hdr()], des_empty()]
+    for _ in range(rng.randrange(1, 5)):
+        r = rng.random()
+        if r < 0.35:
+            steps.append(["ser", omit_value(rng, t), hdr()])
+        elif r < 0.55:
+            steps.append(["ser", gen_value(rng, t, rng.choice([0.0, 0.5])), hdr()])
+        elif r < 0.7:
+            steps.append(["des", ["valid", gen_value(rng, t, 0.3)], hdr()])
+        else:
+            steps.append(des_empty())
+    steps.append(["ser", omit_value(rng, t), hdr()])
+    return {"ty": t, "hist": steps, "mseed": rng.getrandbits(30)}
+
+
+def mutate_in_place(rng, t, o):
+    """What an application may do with an object it received: change it in place, deeply (type-directed, so that the
+    object stays a value of the type)."""
+    k = t[0]
+    if k == "delim":
+        return mutate_in_place(rng, t[1], o)
+
+    def fresh(ft):
+        return to_py(ft, gen_value(rng, ft, 0.0))
+
+    def is_container(ft, x):
+        return isinstance(x, (dict, list))
+
+    if k == "struct" and isinstance(o, dict):
+        for n, ft in named_fields(t):
+            if n in o and is_container(ft, o[n]) and rng.random() < 0.8:
+                mutate_in_place(rng, ft, o[n])
+            else:
+                o[n] = fresh(ft)
+    elif k == "union" and isinstance(o, dict) and len(o) == 1:
+        key = next(iter(o))
+        ft = dict((n, x) for n, x in t[2]).get(key)
+        if ft is not None and is_container(ft, o[key]) and rng.random() < 0.7:
+            mutate_in_place(rng, ft, o[key])
+        else:
+            n2, ft2 = rng.choice(t[2])
+            o.clear()
+            o[n2] = fresh(ft2)
+    elif k in ("fix", "var") and isinstance(o, list):
+        e = t[1]
+        for i in range(len(o)):
+            if is_container(e, o[i]) and rng.random() < 0.7:
+                mutate_in_place(rng, e, o[i])
+            else:
+                o[i] = fresh(e)
+        if k == "var":
+            if len(o) < t[2]:
+                o.append(fresh(e))
+            elif o and rng.random() < 0.5:
+                o.pop()
+
+
+def mutable_parts(o, out):
+    """All mutable containers inside o (the objects themselves, so that the caller can keep them alive)."""
+    if isinstance(o, dict):
+        out.append(o)
+        for x in o.values():
+            mutable_parts(x, out)
+    elif isinstance(o, (list, bytearray)):
+        out.append(o)
+        if isinstance(o, list):
+            for x in o:
+                mutable_parts(x, out)
+    return out
+
+
+def run_history(p, B, case):
+    t = case["ty"]
+    try:
+        schema = B.build(t)
+    except Exception as ex:  # pylint: disable=broad-except
+        return {"build_error": type(ex).__name__, "pred_fail": "type construction failed: %s" % type(ex).__name__}
+    rng = _random.Random(case.get("mseed", 0))
+    steps_obs, fails = [], []
+    keep, seen_ids = [], set()
+
+    def received(o, what):
+        """The application got o from deserialize: check aliasing, then mutate it in place."""
+        parts = mutable_parts(o, [])
+        keep.extend(parts)  # kept alive (before the mutation below can drop them) so that ids are never re-used
+        ids = [id(x) for x in parts]
+        if len(ids) != len(set(ids)):
+            fails.append("%s: the returned object contains the same mutable object at two places" % what)
+        if seen_ids & set(ids):
+            fails.append("%s: the returned object shares mutable objects with an object returned earlier" % what)
+        seen_ids.update(ids)
+        mutate_in_place(rng, t, o)
+
+    for i, st in enumerate(case["hist"]):
+        hdr = st[2]
+        if st[0] == "ser":
+            obj = to_py(t, st[1])
+            try:
+                bs = p.serialize(schema, obj, with_delimiter_header=hdr)
+            except Exception as ex:  # pylint: disable=broad-except
+                steps_obs.append({"err": classify(ex)})
+                continue
+            back, o = observe_deser(p, schema, t, bs, hdr)
+            steps_obs.append({"bytes": list(bs), "back": back})
+            if o is not None:
+                received(o, "step %d" % i)
+            mutate_in_place(rng, t, obj)  # the application re-uses the object it passed in
+        else:
+            rec = st[1]
+            if rec[0] == "zeros":
+                data = bytes(rec[1])
+            elif rec[0] == "raw":
+                data = bytes(rec[1])
+            else:
+                try:
+                    data = p.serialize(schema, to_py(t, rec[1]), with_delimiter_header=hdr)
+                except Exception:  # pylint: disable=broad-except
+                    data = b""
+                if rec[0] == "prefix":
+                    data = data[:rec[2]]
+            res, o = observe_deser(p, schema, t, data, hdr)
+            steps_obs.append({"data": list(data), "res": res})
+            if o is not None:
+                received(o, "step %d" % i)
+    obs = {"steps": steps_obs}
+    if fails:
+        obs["pred_fail"] = "; ".join(sorted(set(fails)))
+    return obs
+
+
 def generate(rng, tier):
     cases = targeted()
     streams = ["targeted"] * len(cases)
@@ -601,6 +780,9 @@ def generate(rng, tier):
     for _ in range(n):
         cases.append(gen_random_case(rng, tier))
         streams.append("random")
+    for _ in range(500 if tier == "quick" else 4000):
+        cases.append(gen_history(rng, tier))
+        streams.append("history")
     return cases, streams
 
 
@@ -919,6 +1101,9 @@ def run_impl(cases):
     B = Builder()
     out = []
     for case in cases:
+        if "hist" in case:
+            out.append(run_history(p, B, case))
+            continue
         t, v, hdr = case["ty"], case["val"], case["hdr"]
         try:
             schema = B.build(t)
@@ -977,11 +1162,23 @@ def leaves(t):
 
 def nontrivial(case, obs):
     t = case["ty"]
+    if "hist" in case:
+        return "steps" in obs and any("res" in so and "val" in so["res"] for so in obs["steps"])
     return "bytes" in obs and (leaves(t) >= 2 or type_depth(t) >= 2)
 
 
 def describe(case, obs):
     t = case["ty"]
+    if "hist" in case:
+        keys = ["history", "history:steps=%d" % len(case["hist"]), "history:top:" + t[0]]
+        for st, so in zip(case["hist"], obs.get("steps", [])):
+            if st[0] == "ser":
+                keys.append("history:ser:" + ("error" if "err" in so else "ok"))
+            else:
+                keys.append("history:des:%s:%s" % (st[1][0], "value" if "val" in so.get("res", {}) else so.get("res", {}).get("err", "shape")))
+        if obs.get("pred_fail"):
+            keys.append("pred-fail")
+        return keys
     keys = ["depth=%d" % type_depth(t), "top:" + t[0], "hdr" if case["hdr"] else "nohdr"]
     kinds = set()
     for x in walk_types(t):
@@ -1063,6 +1260,12 @@ def default_json(t):
 
 
 def shrink(case):
+    if "hist" in case:
+        h = case["hist"]
+        for i in range(len(h)):
+            if len(h) > 1:
+                yield dict(case, hist=h[:i] + h[i + 1:])
+        return
     t, v, hdr = case["ty"], case["val"], case["hdr"]
     # 1. a nested composite on its own with the corresponding part of the value
     def subs(t, v):
